@@ -1064,3 +1064,40 @@ Proof.
   - exists (mkEv DV_SUB 3 0 48 4 (thrcnt s) 1 1). cbn [ea eb]. change (ev_site _ st_thrcnt OFF_THRCNT && (1 =? 1)) with true. cbv iota.
     rewrite Z.eqb_refl. eexists; reflexivity.
 Qed.
+
+(* the thread count dispatch_apply_f hands to the parallel / redirect path is within the hypotheses of the
+   protocol and width theorems: 2 <= T <= min(iterations, max parallelism) *)
+Lemma thr_cnt_bounds maxpar nested iterations :
+  1 <= iterations < 18446744073709551616 -> 0 <= maxpar < 2147483648 -> 0 <= nested < 18446744073709551616 ->
+  fst (apply_thr_cnt maxpar nested iterations) <= iterations /\
+  (fst (apply_thr_cnt maxpar nested iterations) <= maxpar \/ fst (apply_thr_cnt maxpar nested iterations) <= 1).
+Proof.
+  intros Hi Hm Hn. unfold apply_thr_cnt. cbn [fst].
+  assert (E0 : s32 maxpar = maxpar) by (unfold s32; rewrite Z.mod_small; lia). rewrite E0.
+  assert (Eu : u64 maxpar = maxpar) by (apply u64_id; lia). rewrite Eu.
+  assert (H1 : exists t1, (if nested =? 0 then maxpar else if nested <? maxpar then s32 (maxpar ÷ s32 nested) else 1) = t1 /\
+                          0 <= t1 /\ (t1 <= maxpar \/ t1 <= 1)).
+  { destruct (Z.eqb_spec nested 0); [eexists; split; [reflexivity|lia]|].
+    destruct (Z.ltb_spec nested maxpar); [|eexists; split; [reflexivity|lia]].
+    assert (En : s32 nested = nested) by (unfold s32; rewrite Z.mod_small; lia). rewrite En.
+    assert (0 <= maxpar ÷ nested) by (apply Z.quot_pos; lia).
+    assert (maxpar ÷ nested <= maxpar) by (apply Z.quot_le_upper_bound; nia).
+    eexists; split; [reflexivity|]. unfold s32. rewrite Z.mod_small by lia. lia. }
+  destruct H1 as (t1 & -> & P1 & P2).
+  assert (E1 : u64 t1 = t1) by (apply u64_id; lia). rewrite E1.
+  destruct (Z.ltb_spec iterations t1).
+  - assert (Es : s32 iterations = iterations) by (unfold s32; rewrite Z.mod_small; lia). rewrite Es. lia.
+  - lia.
+Qed.
+Theorem path_thread_count iterations nested maxpar w ht os T :
+  1 <= iterations < 18446744073709551616 -> 0 <= maxpar < 2147483648 -> 0 <= nested < 18446744073709551616 ->
+  (apply_f_path iterations nested maxpar w ht os = PathParallel T \/ apply_f_path iterations nested maxpar w ht os = PathRedirect T) ->
+  2 <= T <= iterations /\ T <= maxpar.
+Proof.
+  intros Hi Hm Hn. pose proof (thr_cnt_bounds maxpar nested iterations Hi Hm Hn) as [B1 B2].
+  unfold apply_f_path. destruct (Z.eqb_spec iterations 0); [lia|].
+  set (t := fst (apply_thr_cnt maxpar nested iterations)) in *.
+  destruct (Z.leb_spec t 1); [rewrite orb_true_r; intros [X|X]; discriminate|]. rewrite orb_false_r.
+  destruct (w =? 1); [intros [X|X]; discriminate|].
+  destruct ht; [destruct os|]; intros [X|X]; try discriminate; injection X as <-; lia.
+Qed.
